@@ -427,6 +427,8 @@ def role_calls_deep(crate, role, name):
     for x in role_walk(role):
         if isinstance(x, tuple) and x[0] == "call" and x[1] == name:
             return True
+        if isinstance(x, tuple) and x[0] == "fnconst" and str(x[1]).split("::")[-1].split("<")[0] == name:
+            return True      # the function item itself handed to an adaptor: iter.map(name)
         if isinstance(x, tuple) and x[0] == "agg" and isinstance(x[1], str) and x[1] in crate.bodies:
             cb = crate.bodies[x[1]]
             for sub in cb.all_bodies():
@@ -561,16 +563,17 @@ def leader_add_sites(crate):
 
 
 # ---------------------------------------------------------------------------- loop-exit census
-# file -> (reviewed number of *effectful* loops that may be left before the iterator is exhausted, reason)
+# file -> (reviewed number of loops that mutate the e-graph and may be left before the iterator is exhausted, reason): none today
 EARLY_EXIT_LOOPS = {
-    "src/debug.rs": (1, "Debug for SlotMap: `?` propagates a formatter error"),
-    "src/parse.rs": (2, "`?` propagates formatter errors (two Display impls)"),
 }
 
 
+EGRAPH_STATE_TYPES = ("egraph::EGraph<", "egraph::EClass<", "group::Group<")
+
+
 def loop_effects(body, lp):
-    """calls inside the loop body that receive a `&mut` derived from a `&mut` parameter of the enclosing
-    function (or a closure capture): the loop changes state that outlives it"""
+    """calls inside the loop body that receive a `&mut` derived from a `&mut EGraph / EClass / Group` parameter of
+    the enclosing function: the loop changes e-graph state"""
     sb, it, none_e, some_e, cs = lp
     inside = body.reach(some_e, avoid=set(none_e))
     out = []
@@ -584,7 +587,7 @@ def loop_effects(body, lp):
             for x in role_walk(body.role_of_operand(a)):
                 if isinstance(x, tuple) and x[0] == "param":
                     pi = body.param_index(x[1])
-                    if pi is not None and body.local_ty(pi).startswith("&mut"):
+                    if pi is not None and body.local_ty(pi).startswith("&mut") and any(t in body.local_ty(pi) for t in EGRAPH_STATE_TYPES):
                         out.append((c, x[1]))
                         break
     return out
@@ -618,7 +621,7 @@ def loop_census(ctx, crate):
                     "unreviewed early exit from a state-changing loop: %d loop(s) in %s that mutate through a &mut parameter can be left before their iterator is exhausted (break / return / `?` in the body), %d reviewed; e.g. the loop over %s in %s (it calls %s on `%s`). Elements after the exit are never processed" % (
                         len(sites), file, ent[0] if ent else 0, role_str(lp[1])[:80], short(root.id), fx[0][0].callee.name, fx[0][1]), where_of(b, lp[0]))
     ctx.floor("iterator-driven loops in the library", tot, 60)
-    ctx.floor("of which state-changing", eff, 12)
+    ctx.floor("of which state-changing (through &mut EGraph / EClass / Group)", eff, 8)
     ctx.ok("census", "%d iterator-driven loops, %d state-changing, %d of those with a reviewed early exit, all others run to exhaustion" % (tot, eff, sum(len(v) for v in early.values())))
 
 
